@@ -86,6 +86,29 @@ def gen_roundtrip_cases(rng, n):
     return cases
 
 
+def via_file(ctx, script, payloads, timeout, par):
+    """impl_par with the results passed through files (common.impl_par reads the stdout pipe only after exit,
+    so a child printing more than the pipe buffer would block)"""
+    import tempfile
+    import shutil
+    d = tempfile.mkdtemp(prefix="c14out_")
+    try:
+        for i, pl in enumerate(payloads):
+            pl["out"] = os.path.join(d, "r%d.json" % i)
+        res = ctx.impl_par(script, payloads, timeout=timeout, par=par)
+        out = []
+        for rc, r, txt in res:
+            if r is not None and "file" in r:
+                try:
+                    r = json.load(open(r["file"]))
+                except Exception as e:
+                    r, txt = None, "result file unreadable: %r" % (e,)
+            out.append((rc, r, txt))
+        return out
+    finally:
+        shutil.rmtree(d, ignore_errors=True)
+
+
 def run(ctx):
     import time
     t0 = time.time()
@@ -159,7 +182,7 @@ def run(ctx):
     for cfg, lev, nst in plans:
         for i in range(NSHARD):
             payloads.append({"mode": "explore", "dump_mps": cfg, "levels": lev, "nsteps": nst, "shard": [i, NSHARD]})
-    res = ctx.impl_par("c14_fault.py", payloads, timeout=1500 if not quick else 600, par=NSHARD)
+    res = via_file(ctx, "c14_fault.py", payloads, 1400 if not quick else 600, NSHARD)
     fault_cases = {}      # cfg name -> list of cases
     fault_problems = []
     for pl, (rc, r, out) in zip(payloads, res):
@@ -248,7 +271,7 @@ def run(ctx):
     ncase = 160 if quick else 1600
     cases = gen_roundtrip_cases(ctx.rng, ncase)
     shards = [cases[i::NSHARD] for i in range(NSHARD)]
-    rres = ctx.impl_par("c14_roundtrip.py", [{"cases": s} for s in shards], timeout=1500, par=NSHARD)
+    rres = via_file(ctx, "c14_roundtrip.py", [{"cases": s_} for s_ in shards], 1400, NSHARD)
     rt_bad = []
     rt_n = rt_nontriv = 0
     rt_hist = {}
